@@ -296,6 +296,19 @@ def gen_focus_case(rng, prop):
             specs.append(spec(inputs=inputs, refresh=refresh, show=show, pages=rng.choice([0, 0, 0, 1])))
         typed = [L(rng.choice(["1", "1", "2", "3", "c", "r", "x"])) for _ in range(rng.randrange(4, 18))]
         return [3000, specs, typed, [], 0, [[0, [3, 0, 0]], [1]]]
+    if prop == "C06" and rng.random() < 0.25:
+        # a redraw of the asking screen is handled between the hand-off of its line (InputReceivedSignal, request stack cleared)
+        # and the delivery (InputReadySignal): the user types ahead, refresh() emits one of the screen's own signals whose
+        # callback asks for a redraw.  The re-drawn screen asks again (legal: no request is outstanding any more); the line
+        # already handed off must still reach input().
+        k = rng.randrange(1, 4)
+        s0 = spec(refresh=[[15, 1, [[22, 0, 0]], []], [15, k, [[23, 0, rng.choice([0, 0, -3, 4])]], []]],
+                  custom=[[rng.choice([[6], [7], [6]])]],
+                  inputs=[("1", [], [0]), ("2", [[0, 1, 0]], [0]), ("3", [], [rng.choice([1, 2])])],
+                  skip=1 if rng.random() < 0.3 else 0, default=([], rng.choice([None, [0], [3]])))
+        s1 = spec(inputs=[("1", [], [2]), ("2", [], [0])], refresh=[[15, 1, [[22, 0, 0]], []]], custom=[[[14, 50]]])
+        typed = [L(rng.choice(["1", "1", "2", "3", "x", "c", "hello"])) for _ in range(rng.randrange(2, 9))]
+        return [3000, [s0, s1], typed, [], 0, [[0, [19, 1], [3, 0, rng.choice([0, 5])]], [1]]]
     if prop == "C06":
         n = 4
         specs = [spec(inputs=[("1", [[rng.choice([0, 1, 2]), (i + 1) % n, rng.choice([0, 3])]], [0]), ("2", [], [2]), ("3", [], [1])],
